@@ -63,6 +63,8 @@ def mkval(spec):
         return bytes([spec[1] % 256]) * spec[2], False
     if kind == 'T':
         return chr(97 + spec[1] % 26) * spec[2], False
+    if kind == 'U':
+        return ('\u00e9\u4e2d\U0001f600'[spec[1] % 3]) * spec[2], False
     if kind == 'P':
         return {'n': spec[1], 'pad': 'p' * spec[2]}, False
     if kind == 'bad-surrogate':
@@ -82,6 +84,7 @@ values = st.one_of(
     st.tuples(st.just('B'), st.integers(0, 255), st.sampled_from([100, 4096, 8192])),
     st.tuples(st.just('B'), st.integers(0, 255), st.sampled_from([100, 4096, 8192])),
     st.tuples(st.just('T'), st.integers(0, 25), st.sampled_from([100, 3000])),
+    st.tuples(st.just('U'), st.integers(0, 2), st.sampled_from([70, 100, 3000])),
     st.tuples(st.just('P'), st.integers(0, 9), st.sampled_from([100, 2000])),
     st.tuples(st.just('stream'), st.integers(0, 255), st.sampled_from([10, 300])),
     st.tuples(st.just('bad-surrogate'), st.sampled_from([1, 100])),
@@ -452,4 +455,49 @@ class Concurrent(SubCheck):
         return {'nontrivial': filey and sched.switches > 0, 'classes': ['mode=' + case['mode']]}
 
 
-SUBCHECKS = [FaultedHistories(), Concurrent()]
+class ConcurrentBlocks(SubCheck):
+    """Scheduled programs in which client 0 runs a (possibly aborting) transaction block (C06 generator); audit at quiescence."""
+
+    name = 'concurrent_blocks'
+
+    def examples(self, tier):
+        return 100 if tier == 'quick' else 4000
+
+    def strategy(self, tier):
+        from . import c06
+
+        return c06.conc_case()
+
+    def execute(self, case, env):
+        import diskcache
+
+        from ..conc import run_scheduled
+        from . import c06
+
+        n = len(case['progs'])
+        box = {}
+
+        def open_clients(path):
+            base = diskcache.Cache(path, timeout=0, disk_min_file_size=64)
+            for k, spec in case['init'].items():
+                base.set(k, c05.mk(spec))
+            if case['mode'] == 'shared':
+                return [base] * n, [base]
+            caches = [base] + [diskcache.Cache(path, timeout=0) for _ in range(n - 1)]
+            return caches, caches
+
+        def inspect(path, clients):
+            box['problems'] = Snapshot(path).problems()
+
+        calls, sched = run_scheduled(env, case['progs'], case['schedule'], open_clients, c06.do_op, 'C08', warm=lambda c: c._sql, inspect=inspect)
+        if sched.limit_hit:
+            return {'nontrivial': False, 'classes': ['step-limit']}
+        if box.get('problems'):
+            raise Violation(
+                'C08/audit/%s/concurrent-block' % box['problems'][0][0],
+                'after all clients finished (client 0 ran a transaction block): %s\n%s' % (short(box['problems'], 400), '\n'.join('  ' + repr(c) for c in sorted(calls, key=lambda c: c.inv))),
+            )
+        return {'nontrivial': sched.switches > 0, 'classes': ['mode=' + case['mode']]}
+
+
+SUBCHECKS = [FaultedHistories(), Concurrent(), ConcurrentBlocks()]
